@@ -12,32 +12,32 @@ import (
 // number (driver event sequence) and the virtual time.
 
 type Op struct {
-	ID       int
-	Inst     int // -1 outsider
-	Gen      int
-	Kind     string // create update get delete watch
-	Key      string
-	Val      []byte
-	Rev      uint64 // expected revision (update)
-	Caller   string // chain of leader.* functions that issued it, innermost first
-	GID      uint64
-	Nth      int // per-instance ordinal, 1-based
-	NthKind  int // per-instance ordinal among ops of this kind
-	TInvoke  time.Duration
-	TApply   time.Duration // -1 = never applied
-	TRet     time.Duration // -1 = not returned (yet)
-	SInvoke  uint64
-	SApply   uint64
-	SRet     uint64
-	Applied  bool
-	OK       bool // server verdict (only meaningful if Applied)
-	ResRev   uint64
-	Err      error // what the caller received
-	SrvErr   error // server's verdict error
-	Fault    string
-	PrevLive *Version // key's live PUT just before the apply step
-	PrevLast *Version // key's last message (PUT or DEL) just before the apply step
-	New      *Version
+	ID           int
+	Inst         int // -1 outsider
+	Gen          int
+	Kind         string // create update get delete watch
+	Key          string
+	Val          []byte
+	Rev          uint64 // expected revision (update)
+	Caller       string // chain of leader.* functions that issued it, innermost first
+	GID          uint64
+	Nth          int // per-instance ordinal, 1-based
+	NthKind      int // per-instance ordinal among ops of this kind
+	TInvoke      time.Duration
+	TApply       time.Duration // -1 = never applied
+	TRet         time.Duration // -1 = not returned (yet)
+	SInvoke      uint64
+	SApply       uint64
+	SRet         uint64
+	Applied      bool
+	OK           bool // server verdict (only meaningful if Applied)
+	ResRev       uint64
+	Err          error // what the caller received
+	SrvErr       error // server's verdict error
+	Fault        string
+	PrevLive     *Version // key's live PUT just before the apply step
+	PrevLast     *Version // key's last message (PUT or DEL) just before the apply step
+	New          *Version
 	InStopDelete bool // issued from inside StopWithContext (DeleteKey)
 
 	obj     *elObj
@@ -63,8 +63,8 @@ type ClaimEvt struct {
 	Stack     string // leader.* frames, innermost first
 	Token     string // Token() right after the change
 	// snapshot at the same step
-	Leaders  []int    // instances of the same group with IsLeader()==true (live objects)
-	Live     *Version // live record of the group at that step
+	Leaders      []int    // instances of the same group with IsLeader()==true (live objects)
+	Live         *Version // live record of the group at that step
 	AfterStopRet bool
 }
 
@@ -87,21 +87,21 @@ type CbEvt struct {
 }
 
 type ApiEvt struct {
-	ID        int
-	Inst, Gen int
-	Kind      string
-	Act       *Action
+	ID         int
+	Inst, Gen  int
+	Kind       string
+	Act        *Action
 	TInv, TRet time.Duration // TRet -1 while running
 	SInv, SRet uint64
-	Err       error
-	Bool      bool // result of validate calls
+	Err        error
+	Bool       bool // result of validate calls
 	// for validate: claim/token at invocation
-	LeaderAtInv bool
-	TokenAtInv  string
-	CtxDoneAtInv bool
+	LeaderAtInv    bool
+	TokenAtInv     string
+	CtxDoneAtInv   bool
 	WasLeaderAtInv bool
-	OwnerAtInv bool
-	Panic     string
+	OwnerAtInv     bool
+	Panic          string
 }
 
 type HealthEvt struct {
@@ -109,7 +109,7 @@ type HealthEvt struct {
 	Inst, Gen int
 	T         time.Duration
 	Step      uint64
-	Result    byte // 'h' 'u' 's'
+	Result    byte          // 'h' 'u' 's'
 	Deadline  time.Duration // relative to T; -1 = none
 	Tick      int
 }
@@ -132,11 +132,11 @@ type LogEvt struct {
 }
 
 type JitterEvt struct {
-	T    time.Duration
-	Step uint64
-	U    uint64
-	F    float64
-	GID  uint64
+	T      time.Duration
+	Step   uint64
+	U      uint64
+	F      float64
+	GID    uint64
 	Caller string
 }
 
@@ -150,19 +150,19 @@ type Violation struct {
 }
 
 type Hist struct {
-	Ops     []*Op
-	Claims  []*ClaimEvt
-	Trans   []*TransEvt
-	Cbs     []*CbEvt
-	Apis    []*ApiEvt
-	Health  []*HealthEvt
-	Notifs  []*NotifEvt
-	Logs    []*LogEvt
-	Jitters []*JitterEvt
-	Stalls  []StallEvt
+	Ops      []*Op
+	Claims   []*ClaimEvt
+	Trans    []*TransEvt
+	Cbs      []*CbEvt
+	Apis     []*ApiEvt
+	Health   []*HealthEvt
+	Notifs   []*NotifEvt
+	Logs     []*LogEvt
+	Jitters  []*JitterEvt
+	Stalls   []StallEvt
 	Attempts []*AttemptEvt
 	Expiries []ExpiryEvt // starts of the grace-expiry handler
-	Viol    []Violation
+	Viol     []Violation
 
 	ord uint64
 
